@@ -415,6 +415,29 @@ func c02Typed() []*Prog {
 		mk(FuncDef{Name: "many", Params: ps, Rets: []Type{TInt}, Body: []Stmt{Print{Args: sum}, Return{Vals: []Expr{Var{"p11"}}}}},
 			Print{Args: []Expr{StrLit{V: "last"}, Call{Fn: "many", Args: args}}})
 	}
+	// the blank identifier as a receiver of a multi-value call: the other values keep their positions
+	// (TypeShell treats _ as an ordinary variable with one type, so every discarded value here is an int)
+	{
+		divmod := FuncDef{Name: "divmod", Params: []Param{{"a", TInt}, {"b", TInt}}, Rets: []Type{TInt, TInt}, Body: []Stmt{Return{Vals: []Expr{Binary{Op: "/", L: Var{"a"}, R: Var{"b"}}, Binary{Op: "%", L: Var{"a"}, R: Var{"b"}}}}}}
+		span := FuncDef{Name: "span", Params: []Param{{"a", TInt}}, Rets: []Type{TInt, TInt, TInt}, Body: []Stmt{Return{Vals: []Expr{Binary{Op: "-", L: Var{"a"}, R: lit(1)}, lit(777), Binary{Op: "+", L: Var{"a"}, R: lit(1)}}}}}
+		c := func(f string, a ...Expr) Expr { return Call{Fn: f, Args: a} }
+		top := []Stmt{
+			Define{Names: []string{"_", "r1"}, Form: DefShort, Vals: []Expr{c("divmod", lit(17), lit(5))}},
+			Define{Names: []string{"q1", "_"}, Form: DefShort, Vals: []Expr{c("divmod", lit(17), lit(5))}},
+			Define{Names: []string{"lo", "_", "hi"}, Form: DefShort, Vals: []Expr{c("span", lit(10))}},
+			Print{Args: []Expr{StrLit{V: "defs"}, Var{"r1"}, Var{"q1"}, Var{"lo"}, Var{"hi"}}},
+			Assign{Names: []string{"_", "q1"}, Vals: []Expr{c("divmod", lit(29), lit(6))}},
+			Assign{Names: []string{"hi", "_", "lo"}, Vals: []Expr{c("span", lit(20))}},
+			Print{Args: []Expr{StrLit{V: "assigns"}, Var{"r1"}, Var{"q1"}, Var{"lo"}, Var{"hi"}}},
+		}
+		mk(append([]Stmt{divmod, span}, top...)...)
+		inFn := FuncDef{Name: "work", Params: []Param{{"n", TInt}}, Rets: []Type{TInt}, Body: []Stmt{
+			Define{Names: []string{"_", "m"}, Form: DefShort, Vals: []Expr{c("divmod", Var{"n"}, lit(4))}},
+			Define{Names: []string{"a", "_", "z"}, Form: DefShort, Vals: []Expr{c("span", Var{"m"})}},
+			Assign{Names: []string{"_", "m"}, Vals: []Expr{c("divmod", Var{"z"}, lit(2))}},
+			Return{Vals: []Expr{Binary{Op: "+", L: Binary{Op: "*", L: Var{"a"}, R: lit(100)}, R: Binary{Op: "+", L: Binary{Op: "*", L: Var{"z"}, R: lit(10)}, R: Var{"m"}}}}}}}
+		mk(divmod, span, inFn, Print{Args: []Expr{StrLit{V: "work"}, c("work", lit(11)), c("work", lit(30))}})
+	}
 	return out
 }
 
